@@ -259,11 +259,27 @@ def run(case):
     return res
 
 
+def _all_shapes(nmax):
+    """Every (len1, len2, window) up to nmax with one fixed data pattern and a complete-rows slice: the compact layout
+    (four row regions) and its expansion depend on the shape only."""
+    out = []
+    for l1 in range(1, nmax + 1):
+        for l2 in range(1, nmax + 1):
+            for w in range(1, max(l1, l2) + 1):
+                out.append({'s1': [((i * 7) % 5) / 2.0 for i in range(l1)], 's2': [((j * 3 + 1) % 5) / 2.0 for j in range(l2)],
+                            'regime': 'L', 'exact': True, 'window': w, 'penalty': 0.5 if (l1 + l2 + w) % 2 else None, 'psi': None,
+                            'psi_repairs': 0, 'inner': 'squared euclidean' if (l1 + w) % 3 else 'euclidean', 'max_step': None,
+                            'max_length_diff': None, 'ndim': 1, 'keep_int_repr': bool((l1 + l2) % 2), 'psi_neg': True,
+                            'max_dist': None, 'slice': [0, 1 + (l1 + 1) // 2, 0, l2 + 1]})
+    return out
+
+
 def legs(tier):
     ml = 8 if tier == 'quick' else 12
     a = Leg('matrix', _case(ml), run, 12000, 120000, max_shrink_buckets=8)
     a.essential = {'regions=ABD': 0.0}
-    return [a]
+    nmax = 14 if tier == 'quick' else 24
+    return [a, Leg('all-shapes', None, run, 0, 0, cases=lambda: _all_shapes(nmax))]
 
 
 def _c_bucket(bucket):
